@@ -42,8 +42,10 @@ class Job:
 
     @property
     def label(self):
-        return "%s@%s/%s%s" % (self.group["name"], ",".join("%s=%s" % kv for kv in sorted(self.ctx.items())),
-                               "+".join(self.profiles), "" if self.mode == "verify" else ":" + self.mode)
+        probe = getattr(self, "probe", None)
+        return "%s@%s/%s%s%s" % (self.group["name"], ",".join("%s=%s" % kv for kv in sorted(self.ctx.items())),
+                               "+".join(self.profiles), "" if self.mode == "verify" else ":" + self.mode,
+                               ("[%s]" % probe[1]) if probe else "")
 
 
 def body_hash(text):
@@ -96,13 +98,21 @@ def run_check(prop, tier, seed):
         modes = ["verify"] + (["vacuity"] if spec.get("vacuity", True) else [])
         for (gname, ctx) in jobs_spec:
             g = plan.GROUPS[gname]
-            for mode in modes:
+            variants = [("verify", None)]
+            if spec.get("vacuity", True):
+                inh, tr = assemble.vacuity_targets(all_units, g)
+                if inh:
+                    variants.append(("vacuity", None))
+                for entry in tr:
+                    variants.append(("vacuity", entry))
+            for (mode, probe) in variants:
                 per_profile = []
                 for profile in ("dev", "release"):
                     j = Job(g, ctx, profile, mode)
+                    j.probe = probe
                     try:
                         j.asm = assemble.assemble(weavers[profile], all_units, g, ctx, os.path.join(ROOT, "spec", "prelude"),
-                                                  mode=mode, features=g.get("features", ""))
+                                                  mode=mode, features=g.get("features", ""), probe=probe)
                     except (weave.LostAnchor, unitsmod.UnitError, rstok.LexError) as e:
                         j.error = "%s: %s" % (type(e).__name__, e)
                     per_profile.append(j)
@@ -172,7 +182,7 @@ def run_check(prop, tier, seed):
                 canary_ok += 1
             for c in j.asm.chunks:
                 u = all_units[c.unit]
-                if c.mode == "stub" or u.kind != "fn":
+                if c.mode in ("stub", "decl") or u.kind != "fn":
                     if u.trusted:
                         trusted.add("unit %s: %s" % (c.unit, u.trusted))
                     continue
